@@ -46,6 +46,7 @@ def run(repo, tier):
     r.rule("R15.1", "sentinel resolution: specified -> caller's value, unspecified -> default (never the sentinel itself)", floor=2)
     r.rule("R15.2", "a possibly-unspecified option never reaches a truth test before it is resolved", floor=2)
     r.rule("R15.3", "extra precision: __init__ stores the options backend_context applies; backend calls run inside backend_context", floor=5)
+    r.rule("R15.5", "mpf2float's underflow/overflow results carry the sign: the negative arm is a float negative zero / negative infinity", floor=2)
     r.rule("R15.4", "mpf2float reads IEEE-correct exponent tables and keys them by the flush flag the right way round", floor=13)
 
     n_res = 0
@@ -206,6 +207,33 @@ def run(repo, tier):
     ie = zexp[0].value
     ok = norm_src(ie.test) == "flush_subnormals" and "float_minexp" in norm_src(ie.body) and "float_subexp" in norm_src(ie.orelse)
     r.ob("R15.4", f"{REL}::mpf2float zero threshold", ok, f"`{norm_src(ie)}`: flushing must cut at float_minexp (smallest normal), otherwise at float_subexp", loc(REL, ie))
+    # R15.5: returns under the two range tests
+    n55 = 0
+    for n in ast.walk(mf):
+        if isinstance(n, ast.If) and isinstance(n.test, ast.Compare) and norm_src(n.test.left) == "exp + bc":
+            rets = [x for x in n.body if isinstance(x, ast.Return)]
+            if len(rets) != 1:
+                continue
+            n55 += 1
+            v = rets[0].value
+            under = isinstance(n.test.ops[0], ast.Lt)
+            # negated *integer* zero has no sign
+            int_neg_zero = [x for x in ast.walk(v) if isinstance(x, ast.UnaryOp) and isinstance(x.op, ast.USub) and isinstance(x.operand, ast.Constant)
+                            and isinstance(x.operand.value, int) and not isinstance(x.operand.value, bool) and x.operand.value == 0]
+            depends_on_sign = any(isinstance(x, ast.Name) and x.id == "sign" for x in ast.walk(v))
+            has_neg = any(isinstance(x, ast.UnaryOp) and isinstance(x.op, ast.USub) for x in ast.walk(v)) or "copysign" in norm_src(v)
+            ok = depends_on_sign and has_neg and not int_neg_zero
+            what = "underflow (signed zero)" if under else "overflow (signed infinity)"
+            detail = f"`{norm_src(v)}`: "
+            if int_neg_zero:
+                detail += "`-0` is the integer 0, it carries no sign, so a negative value underflows to +0.0"
+            elif not depends_on_sign:
+                detail += "the result does not depend on `sign`"
+            elif not has_neg:
+                detail += "no negative arm"
+            r.ob("R15.5", f"{REL}::mpf2float {what} result", ok, detail, loc(REL, rets[0]))
+    if n55 < 2:
+        raise AnalysisError("mpf2float: underflow/overflow early returns not found")
     cmps = [n for n in ast.walk(mf) if isinstance(n, ast.Compare) and norm_src(n.left) == "exp + bc"]
     got = {norm_src(c) for c in cmps}
     ok = any(c.startswith("exp + bc < zexp") for c in got) and any("exp + bc > vectorize_with_mpmath.float_maxexp[fp_format]" == c for c in got)
